@@ -4,16 +4,17 @@
    `close` only. -/
 import CircuitModel.GoCircuitSpec
 import CircuitProofs.GoTie.Basic
+import Generated.GoCircuit.F_IsOpen
 import Generated.GoCircuit.F_close
 namespace CM.GoTie
 open CM CM.Go CM.GoCircuit CM.Generated.GoCircuit
 variable {σo σc : Type} [L : Logic σo σc]
 
-theorem go_close_eq (hI : go_IsOpen (σo := σo) (σc := σc) = spec_IsOpen) (ctx : GoCtx) (t : GoTime) (f : Bool) :
+theorem go_close_eq (_hI : go_IsOpen (σo := σo) (σc := σc) = spec_IsOpen) (ctx : GoCtx) (t : GoTime) (f : Bool) :
     go_close (σo := σo) (σc := σc) ctx t f = spec_close ctx t f := by
   funext g
-  simp only [go_close, spec_close, hI]
+  simp only [go_close, spec_close]
   cases f <;> rw [gt_fn_unlock] <;> gt_eval [spec_IsOpen]
-  all_goals (repeat' split) <;> simp_all [closeCircuit, onS]
+  all_goals (repeat' split) <;> simp_all [closeCircuit, onS, isOpenEff]
 
 end CM.GoTie
